@@ -9,8 +9,9 @@ import contracts.tablereaders as TR
 
 F_TF = 'atsim/potentials/tableforms.py'
 F_TFB = 'atsim/potentials/config/_table_form_builder.py'
-FUNCTIONS = [(TR.F_TR, 'TableReaderBase._findIndex'), (TR.F_TR, 'TableReaderBase.getValue'), (TR.F_INIT, 'plotToFile'), (TR.F_CP, '_TableFormSection._parse_xy')]
-SPECSEQS = [TR.plot_rows]
+FUNCTIONS = [(TR.F_TR, 'TableReaderBase._findIndex'), (TR.F_TR, 'TableReaderBase.getValue'), (TR.F_INIT, 'plotToFile'), (TR.F_CP, '_TableFormSection._parse_xy'),
+             (TR.F_TR, 'DatReader._populate')]
+SPECSEQS = [TR.plot_rows, TR.data_rows]
 
 def _populate_shape():
     """DatReader._populate: every non-blank, non-comment line contributes (float(tok0), float(tok1)) whatever its terminator:
@@ -29,8 +30,7 @@ def lemmas():
     ok, why = _populate_shape()
     out.append(B.static_obligation('C18/_tablereaders.py::DatReader._populate/terminator-independent', ok, 'DatReader._populate', TR.F_TR, why))
     S = B.source_shape
-    out.append(S('C18', TR.F_TR, 'DatReader._populate', 'two-floats-per-data-line-sorted',
-                 ['line = line.strip()', "if len(line) == 0 or line[0] == '#':\n        continue", 'x, y = splitre.split(line)[:2]', 'results.append((float(x), float(y)))', 'results.sort()', 'self.extend(results)']))
+    # DatReader._populate is under an Engine A contract (contracts/tablereaders.py): the sorted (x, y) pairs of the data lines, comments and blank lines skipped
     out.append(S('C18', TR.F_INIT, 'TableReader.__call__', 'delegates-to-getValue', ['return self._tablereader.getValue(separation)']))
     out.append(S('C18', TR.F_INIT, 'TableReader.__init__', 'reads-with-DatReader', ['self._tablereader = _tablereaders.DatReader(fileobject)']))
     out.append(S('C18', TR.F_INIT, 'plot', 'opens-and-delegates', ["with open(filename, 'w') as outfile:\n    plotToFile(outfile, lowx, highx, func, steps)"]))
@@ -53,6 +53,11 @@ def lemmas():
     return out
 
 MUTANTS = [
+    (TR.F_TR, 'DatReader._populate', "if len(line) == 0 or line[0] == '#':", "if len(line) == 0:", 'preserve/0'),
+    (TR.F_TR, 'DatReader._populate', "results.append((float(x), float(y)))", "results.append((float(y), float(x)))", 'preserve/0'),
+    (TR.F_TR, 'DatReader._populate', "results.sort()", "pass", 'post'),
+    (TR.F_TR, 'DatReader._populate', "splitre.split(line)[:2]", "splitre.split(line)[:3]", 'unpack'),
+    (TR.F_TR, 'DatReader._populate', "line = line.strip()", "line = line", 'preserve/0'),
     (TR.F_TR, 'TableReaderBase.getValue', "if highidx == len(self):", "if highidx == len(self) - 1:", 'post'),
     (TR.F_TR, 'TableReaderBase.getValue', "m = (hy - ly) / (hx - lx)", "m = (hy - ly) / (hx + lx)", 'post/chord'),
     (TR.F_TR, 'TableReaderBase._findIndex', "return idx - 1", "return idx", 'post'),
